@@ -153,8 +153,10 @@ func (e *Enc) baseCtx() *SpecCtx {
 		ctx.ghost = e.selfGhost
 		ctx.owner = e.fc
 	}
+	ctx.params = map[string]bool{}
 	for _, p := range e.fn.Params {
 		ctx.vars[p.Name()] = TV{e.vals[p], p.Type()}
+		ctx.params[p.Name()] = true
 	}
 	return ctx
 }
